@@ -39,6 +39,9 @@ MAXK = 8
 
 def gen_case(rng, tier, index):
     case = gen_rewrite.generate(rng, tier, align_lines=True)
+    if rng.random() < 0.4:
+        # alignment entries on input blocks (requirements that hold)
+        case["align_seed"] = rng.randrange(1 << 30)
     if rng.random() < 0.2:
         from . import c06
         case["newfuncs"] = [c06.new_function(rng, case, k)
@@ -145,6 +148,9 @@ def run_case(case):
     state = {}
 
     def before(r):
+        if case.get("align_seed") is not None:
+            from . import c10
+            ctr["aligned_input_blocks"] = c10.apply_auto_align(case, r.bu)
         state["snap"] = irsan.Snapshot(r.bu.module)
         # (under PassManager this runs inside the manager's return-cache
         # context, where ir.cfg already is the cache: the caller's object is
